@@ -7,6 +7,7 @@ of option-setter calls with arbitrary arguments:
                            the setters were given (malformed colours are ignored) — so the
                            `Color::from(Vec<u8>)` conversions in `qr_svg` cannot hit their panic arm.
 * `C17_no_wasm_traps`    : the wasm layer adds no trap to those of the native build.
+* `C17_total`            : hence (C10_total_auto) neither entry point traps, for any content and history.
 * `C17_svg`              : `qr_svg` returns exactly the native `SvgBuilder` rendering for the mapped
                            options, and the empty string when the content cannot be encoded.
 * `C17_qr`               : `qr` returns the module values of the native default build, or empty.
@@ -15,6 +16,7 @@ of option-setter calls with arbitrary arguments:
 Not covered: wasm-bindgen glue, JS<->Rust conversions, 32-bit `usize` on wasm32.
 -/
 import FastQr.Model.Wasm
+import FastQr.Proofs.Total
 
 namespace FastQr.Props.C17
 open FastQr Model Model.Wasm
@@ -58,6 +60,16 @@ theorem C17_no_wasm_traps (content : List Nat) (ops : List Op) :
     split <;> simp
   · simp only [qr, Chk.traps_bind]
     split <;> simp
+
+/-- **C17 (never traps)**: for every content (a byte string), every setter history with legal enum
+values for level / version: neither entry point records a trap (uses `C10_total_auto`) -/
+theorem C17_total (content : List Nat) (ops : List Op) (hb : Spec.IsBytes content)
+    (hv : ∀ v, (Options.run ops).version = some v → v < 40) :
+    (qrSvg content (Options.run ops)).traps = [] ∧ (qr content).traps = [] := by
+  obtain ⟨h1, h2⟩ := C17_no_wasm_traps content ops
+  rw [h1, h2]
+  exact ⟨Proofs.Total.build_total_auto content _ hb ⟨hv, by simp⟩ rfl,
+    Proofs.Total.build_total_auto content _ hb ⟨by simp, by simp⟩ rfl⟩
 
 /-- **C17 (SVG export = native rendering of the mapped options; empty when not encodable)** -/
 theorem C17_svg (content : List Nat) (o : Options) :
